@@ -108,9 +108,19 @@ def _load_real(ctx, spec):
     return out
 
 
-def _search(ctx, els, pos, cell, pel, P, atol, hints, script):
+def _search(ctx, els, pos, cell, pel, P, atol, hints, script, derive_from=None, back=None):
     from mofun import Atoms
-    S = Atoms(elements=list(els), positions=np.asarray(pos, float).reshape(-1, 3), cell=np.asarray(cell, float))
+    if derive_from is not None and back is not None and len(back) == len(derive_from):
+        # the re-presented structure is made the way callers edit structures: copy an object that has already been searched
+        # and assign its per-atom arrays (anything cached on the object must follow the arrays)
+        S = derive_from.copy()
+        S.positions = np.asarray(pos, float).reshape(-1, 3).copy()
+        S.atom_types = np.array(derive_from.atom_types)[list(back)]
+        S.charges = np.array(derive_from.charges)[list(back)]
+        S.groups = np.array(derive_from.groups)[list(back)]
+        ctx.count("representations_made_by_copy_and_assign")
+    else:
+        S = Atoms(elements=list(els), positions=np.asarray(pos, float).reshape(-1, 3), cell=np.asarray(cell, float))
     pat = Atoms(elements=list(pel), positions=np.asarray(P, float).reshape(-1, 3))
     ctx.rng.reset(script)
     idxs, positions, quats = findcheck.call_find(ctx, S, pat, atol, hints)
@@ -215,7 +225,8 @@ def execute(spec, ctx):
                                         % (sorted(g), counts.get(g, 0), dims, mult), site="find")
             ctx.count("supercell_comparisons")
             continue
-        resB, nB, _ = _search(ctx, els_b, pos_b, cell, pel, P_b, atol, hints_b, script_b)
+        resB, nB, _ = _search(ctx, els_b, pos_b, cell, pel, P_b, atol, hints_b, script_b,
+                              derive_from=Sbase if (ri + spec["seed"]) % 2 == 0 else None, back=back)
         mappedB = {frozenset(back[j] for j in g): mx for g, mx in resB.items()}
         if len(mappedB) != len(resB):
             raise Violation("c03:duplicate-groups", "re-presented search reports the same atom group more than once", site="find")
